@@ -541,7 +541,9 @@ def make_fit(spec):
         C, w, E = np.zeros((3, 3)), np.zeros(3), np.zeros((3, 3))
 
     def impl():
-        a = shcopy(P)
+        # (collinear clouds have a two-dimensional eigenspace for the smallest eigenvalue: which normal comes out depends on
+        # the order in which NumPy sums, hence on the memory layout -- those keep the layout the model's eigenpairs came from)
+        a = shcopy(P, keep_layout=spec["kind"] == "collinear")
         return plane_items(Plane.fit_from_points(a), [a])
 
     def oracle(r):
